@@ -50,7 +50,10 @@ def main():
     finally:
         subprocess.run(["git", "-C", "/repo", "checkout", "--", "."], check=True)
         subprocess.run("rm -f %s/replays/*" % ROOT, shell=True)
-    json.dump(res, open(os.path.join(d, "detection.json"), "w"), indent=1)
+    dj = os.path.join(d, "detection.json")
+    allres = json.load(open(dj)) if os.path.exists(dj) else {}
+    allres.update(res)              # a partial re-run refreshes only the checks it ran
+    json.dump(allres, open(dj, "w"), indent=1)
     caught = [p for p, v in res.items() if v["exit"] != 0]
     print("CAUGHT BY:", " ".join(caught) if caught else "nothing")
 
